@@ -75,6 +75,8 @@ def _mk_exc_types():
     mk("ModuleNotFoundError", "ImportError")
     mk("TimeoutError", "OSError")
     mk("FileNotFoundError", "OSError")
+    mk("ConnectionResetError", "OSError")
+    mk("EOFError", "Exception")
     mk("NotImplementedError", "RuntimeError")
     mk("RecursionError", "RuntimeError")
     return T
@@ -733,6 +735,18 @@ class Interp:
                 raise OutOfReach(f"binop {type(op).__name__}")
         if isinstance(op, ast.Add) and (self._is_strlike(a) and self._is_strlike(b)):
             return self.concat_str([a, b])
+        if isinstance(op, ast.Add) and isinstance(a, SV) and isinstance(b, SV) and z3.is_seq(a.t) and z3.is_seq(b.t) and a.t.sort() == b.t.sort():
+            return SV(z3.Concat(a.t, b.t))
+        if isinstance(op, ast.BitAnd) and isinstance(b, int) and not isinstance(b, bool) and b > 0 and (b & (b - 1)) == 0 and isinstance(a, SV) and a.t.sort() == z3.IntSort():
+            # x & 2**k for a non-negative integer x: bit k
+            self.eng.assume(a.t >= 0)
+            q = self.eng.fresh("bitq", z3.IntSort())
+            r = self.eng.fresh("bitr", z3.IntSort())
+            self.eng.assume(z3.And(a.t == q * b + r, r >= 0, r < b))
+            q2 = self.eng.fresh("bitq2", z3.IntSort())
+            bit = self.eng.fresh("bit", z3.IntSort())
+            self.eng.assume(z3.And(q == 2 * q2 + bit, bit >= 0, bit <= 1))
+            return SV(bit * b)
         ta, tb = self.num_term(a), self.num_term(b)
         if ta is None or tb is None:
             raise OutOfReach(f"binop {type(op).__name__} on {type(a).__name__},{type(b).__name__}")
